@@ -39,34 +39,54 @@ func FBP(reftree *tree.Tree, boottrees <-chan tree.Trees, cpus int, sup *Support
 		}
 	}
 	var wg sync.WaitGroup
+	// Protects err and the progress of the supporter, shared by all the workers
+	var mux sync.Mutex
+	setError := func(e error) {
+		mux.Lock()
+		if err == nil {
+			err = e
+		}
+		mux.Unlock()
+	}
+	failed := func() bool {
+		mux.Lock()
+		defer mux.Unlock()
+		return err != nil
+	}
 	for cpu := 0; cpu < cpus; cpu++ {
 		wg.Add(1)
 		go func(cpu int) {
+			defer wg.Done()
 			var inerr error
+		trees:
 			for treeV := range boottrees {
+				if failed() {
+					// After an error, remaining trees are consumed but not analyzed
+					continue
+				}
 				edgeIndex := tree.NewEdgeIndex(uint64(len(edges)*2), 0.75)
 				if sup.Canceled() {
 					break
 				}
 				if treeV.Err != nil {
-					err = treeV.Err
-					return
+					setError(treeV.Err)
+					continue
 				} else {
-					if inerr = treeV.Tree.ReinitIndexes(); err != nil {
-						err = inerr
-						return
+					if inerr = treeV.Tree.ReinitIndexes(); inerr != nil {
+						setError(inerr)
+						continue
 					}
-					if inerr = reftree.CompareTipIndexes(treeV.Tree); err != nil {
-						err = inerr
-						return
+					if inerr = reftree.CompareTipIndexes(treeV.Tree); inerr != nil {
+						setError(inerr)
+						continue
 					}
 					atomic.AddInt32(&ntrees, 1)
 					edges2 := treeV.Tree.Edges()
 					for i, e2 := range edges2 {
 						if !e2.Right().Tip() {
 							if inerr = edgeIndex.PutEdgeValue(e2, i, e2.Length()); inerr != nil {
-								err = inerr
-								return
+								setError(inerr)
+								continue trees
 							}
 						}
 					}
@@ -77,9 +97,10 @@ func FBP(reftree *tree.Tree, boottrees <-chan tree.Trees, cpus int, sup *Support
 						}
 					}
 				}
+				mux.Lock()
 				sup.IncrementProgress()
+				mux.Unlock()
 			}
-			wg.Done()
 		}(cpu)
 	}
 
